@@ -166,6 +166,7 @@ type wWorld struct {
 	noteSeq  func(route string, sel int) int // symbolic seq of a {note} (op.M): set by the C15 observer
 	emptyAt  map[string]time.Time            // route -> when the request which detached its last session was sent
 	lastSend time.Time
+	callAt   time.Time // when the latest call invitation was sent
 	files    []string                        // urls of uploads made by "upload" ops
 	fileLocs []string                        // where their bytes are, removed at shutdown
 }
